@@ -14,6 +14,7 @@ CONSTANTS
   Interleave = TRUE
   WithTraffic = FALSE
   WithUnknownStop = FALSE
+  Forms = {1}
   LocMaps <- CanonLocMaps
 INVARIANTS TypeOK CrashDump
 VIEW GenView
